@@ -63,6 +63,15 @@ func (ap *accountPool) canRollback(block *nom.AccountBlock) error {
 	frontier := ap.getFrontierAccountStore(address)
 	frontierIdentifier := frontier.Identifier()
 
+	// the first block of an account has no previous block to look up: it goes on top of the empty account-chain
+	if identifier.Height == 1 {
+		if previous != types.ZeroHashHeight {
+			log.Info("failed to insert account-block-transaction", "reason", "previous mismatch", "frontier-identifier", frontierIdentifier)
+			return fmt.Errorf(`%w reason:%v; frontier-identifier:%v; identifier:%v`, ErrFailedToAddAccountBlockTransaction, "missing previous", frontierIdentifier, identifier)
+		}
+		return nil
+	}
+
 	// previous doesn't match
 	truePrevious, err := frontier.ByHeight(identifier.Height - 1)
 	if err != nil {
